@@ -466,6 +466,64 @@ def disable_while_connect_succeeds_round():
     return obs
 
 
+def active_disable_stays_down_round():
+    """An ACTIVE endpoint (TcpClientConnection) that is connected, optionally in the middle of a frame of the peer, is disabled.
+    disable() returns with NOT CONNECTED - and the endpoint STAYS down: no connection attempt after T5, no connect thread left."""
+    import secsgem.common.tcp_connection
+    secsgem.common.tcp_connection.TcpConnection.select_timeout = 0.02
+    port = common.own_port(6)
+    lst = socket.socket()
+    lst.setsockopt(socket.SOL_SOCKET, socket.SO_REUSEADDR, 1)
+    lst.bind(("127.0.0.1", port))
+    lst.listen(4)
+    lst.settimeout(5)
+    settings = secsgem.hsms.HsmsSettings(address="127.0.0.1", port=port, connect_mode=secsgem.hsms.HsmsConnectMode.ACTIVE, device_id=0)
+    settings.timeouts.t5 = 1
+    settings.timeouts.t6 = 1
+    proto = secsgem.hsms.HsmsProtocol(settings)
+    obs = {}
+    peers = []
+    try:
+        proto.enable()
+        try:
+            peer, _ = lst.accept()
+            peers.append(peer)
+            obs["connected"] = True
+        except OSError:
+            obs["connected"] = False
+            return obs
+        peer.sendall(b"\x00\x00\x00\x0a\xff\xff")      # the peer is inside a frame when the endpoint is taken down
+        time.sleep(0.2)
+        try:
+            common.with_deadline(proto.disable, 12.0)
+            obs["disable_returned"] = True
+        except common.Wedged:
+            obs["disable_returned"] = False
+        obs["not_connected"] = proto.connection_state.current.value == 0
+        # T5 (1 s) and more pass: a disabled endpoint makes no attempt to connect
+        lst.settimeout(2.5)
+        try:
+            again, _ = lst.accept()
+            peers.append(again)
+            obs["connected_again_after_disable"] = True
+        except OSError:
+            obs["connected_again_after_disable"] = False
+        obs["state_afterwards"] = proto.connection_state.current.name
+        obs["connect_threads_alive"] = len([t for t in threading.enumerate() if "tcpClientConnection_connect" in t.name.replace("TcpClient", "tcpClient") and t.is_alive()])
+    finally:
+        for p_ in peers:
+            try:
+                p_.close()
+            except OSError:
+                pass
+        lst.close()
+        try:
+            common.with_deadline(proto.disable, 5.0)
+        except Exception:  # noqa: BLE001
+            pass
+    return obs
+
+
 def queue_case(rnd, sizes, packet, writes):
     """one direct call of HsmsProtocol._process_send_queue (no thread is running): blocks of the given byte sizes are queued, the
     connection's send_data answers as scripted; returns the Coq literal: packet counts, the answers, how each block ended"""
@@ -715,6 +773,10 @@ def run(tier, replay=None):
     race2_obs = common.guarded(disable_while_connect_succeeds_round, "disable() while the active endpoint's connection attempt succeeds", awedged, 60.0)
     if race2_obs is not None and not (race2_obs["disable_returned"] and race2_obs["not_connected"]):
         report.violation({"kind": "counterexample", "what": "disable() did not return / the endpoint did not end NOT CONNECTED when its connection attempt succeeded while it was being disabled", **race2_obs}, True, tag="disablerace")
+    down_obs = common.guarded(active_disable_stays_down_round, "disable() of a connected active endpoint, then T5 passes", awedged, 60.0)
+    if down_obs is not None and down_obs.get("connected") and not (down_obs.get("disable_returned") and down_obs.get("not_connected") and not down_obs.get("connected_again_after_disable")
+                                                                   and down_obs.get("state_afterwards") == "NOT_CONNECTED"):
+        report.violation({"kind": "counterexample", "what": "a disabled active endpoint did not stay NOT CONNECTED: it connected again after T5 / disable() did not return", **down_obs}, True, tag="staysdown")
     # _process_send_queue itself against scripted answers of the connection: every queued block is resolved by one run
     qlits, qraws = [], []
     for _ in range(60 if tier == "quick" else 600):
@@ -800,6 +862,7 @@ def run(tier, replay=None):
     cov["active_reconnect_rounds"] = active_obs
     cov["disable_while_peer_connects"] = race_obs
     cov["disable_while_connect_succeeds"] = race2_obs
+    cov["active_disable_stays_down"] = down_obs
     cov["disable_races_peer_close"] = race3_obs
     cov["stale_dispatch_queue"] = sd_obs
     cov["disable_from_callback"] = cb_obs
